@@ -8,7 +8,7 @@ from ..strategies import crystals as cs, vacancy as vs, data as dt
 from . import c07
 
 ID = "C14"
-RULE = ("History property.  Hypothesis draws a crystal/network, a pool of three inputs as tag dictionaries (A; B = A with other solute-vacancy "
+RULE = ("History property.  Hypothesis draws a crystal/network, a pool of five inputs as tag dictionaries (D = C with the vacancy site energies moved by n x 1e-6, E = C with the omega0 barriers moved by 2e-6: finite-difference steps; A; B = A with other solute-vacancy "
         "and omega1/omega2 data but the same vacancy data, so the Green-function cache is hit; C independent) and a history of 3-12 "
         "operations from {evaluate(k), scribble(previous result r, tensor t) = in-place overwrite of an array returned earlier, reuse_inputs(k') = the caller overwrites in place the input arrays it passed to the last evaluation with input k', "
         "clearcache(), regenerate(N') = generate + generatematrices + generatetags (the constructor's own sequence), save/reload through an "
@@ -27,7 +27,7 @@ def op(draw):
     kind = draw(st.sampled_from(["eval", "eval", "eval", "scribble", "scribble", "clear", "regen", "reload", "reuse"]))
     o = {"op": kind}
     if kind == "eval":
-        o["k"] = draw(st.sampled_from([0, 0, 0, 1, 2]))
+        o["k"] = draw(st.sampled_from([0, 0, 0, 1, 2, 3, 4]))
     elif kind == "reuse":
         o["k"] = draw(st.sampled_from([2, 0, 2, 1]))   # input 2 has different vacancy data (another cache key)
     elif kind == "scribble":
@@ -56,14 +56,27 @@ def cases(draw):
     C["omega0"] = [[draw(dt.prefactor()), float(np.round(e + 0.5, 4))] for p, e in C["omega0"]]
     C["omega1"] = [[p, float(np.round(e + 1.2, 4))] for p, e in C["omega1"]]
     C["omega2"] = [[p, float(np.round(e + 1.2, 4))] for p, e in C["omega2"]]
+    # D: a near-duplicate of C (finite-difference step in the vacancy site energies and omega0 barriers): another input, another result
+    D = copy.deepcopy(C)
+    # vacancy site energies only, and only of the sets above the lowest one, so that the beta-free-energy reference point and hence
+    # the omega0 inputs stay put (no-op on one Wyckoff set)
+    lowest = int(np.argmin([e / base["kT"] - np.log(p) for p, e in D["vacancy"]]))
+    D["vacancy"] = [[p, float(e + (0. if n == lowest else 1e-6))] for n, (p, e) in enumerate(D["vacancy"])]
+    E = copy.deepcopy(C)
+    E["omega0"] = [[p, float(e + 2e-6)] for p, e in E["omega0"]]                            # omega0 barriers only
     hist = draw(st.lists(op(), min_size=3, max_size=12))
+    if draw(st.integers(0, 1)) == 0:
+        # finite-difference use: C then D (or D then C) on the same calculator
+        at = draw(st.integers(0, len(hist)))
+        pair = draw(st.sampled_from([[2, 3], [3, 2], [2, 3], [2, 4], [4, 2], [3, 4]]))
+        hist[at:at] = [{"op": "eval", "k": pair[0]}, {"op": "eval", "k": pair[1]}]
     if draw(st.integers(0, 3)) == 0:
         # a loop that refills its own input buffers and checkpoints the calculator between refill and evaluation
         k1 = draw(st.sampled_from([0, 1, 2]))
         k2 = 2 if k1 != 2 else draw(st.sampled_from([0, 1]))
         at = draw(st.integers(0, len(hist)))
         hist[at:at] = [{"op": "eval", "k": k1}, {"op": "reuse", "k": k2}, {"op": "reload"}, {"op": "eval", "k": k2}]
-    return {"setup": setup, "kT": base["kT"], "member": base["member"], "pool": [A, B, C], "history": hist}
+    return {"setup": setup, "kT": base["kT"], "member": base["member"], "pool": [A, B, C, D, E], "history": hist}
 
 
 _pristine = {}
@@ -78,6 +91,9 @@ def reference(setup, N, usertags, kT, key):
         if len(_pristine) > 200:
             _pristine.clear()
         calc = vs.calculator(s)[3]
+        # the reference must not have a history of its own: empty caches before every reference evaluation
+        calc.clearcache()
+        calc.GFvalues, calc.Lvvvalues, calc.etavvalues = {}, {}, {}
         out = calc.Lij(*calc.preene2betafree(kT, **calc.tags2preene(usertags)))
         _pristine[k] = [np.array(x, dtype=float).copy() for x in out]
     return [x.copy() for x in _pristine[k]]
@@ -102,7 +118,7 @@ def check(case):
     held = None
     for step, o in enumerate(case["history"]):
         if o["op"] == "eval":
-            k = o["k"] % 3
+            k = o["k"] % len(tags)
             args = list(calc.preene2betafree(case["kT"], **calc.tags2preene(tags[k])))
             out = calc.Lij(*args)
             held = (N, args)   # the caller keeps its own input buffers
@@ -113,7 +129,7 @@ def check(case):
                 require(e <= 1e-12, lambda: "step %d: evaluate(input %d) at Nthermo=%d returns %s that differs from a pristine calculator by %.3e (relative) after history %s: %s vs %s"
                         % (step, k, N, nm, e, trace, np.asarray(a).tolist(), b.tolist()))
             results.append((k, list(out)))
-            vac = 0 if k in (0, 1) else 1
+            vac = 0 if k in (0, 1) else k - 1
             if vac in scribbled_vac:
                 flags["eval_after_scribble_same_vacancy"] = True
             if pending["regen"]:
@@ -127,12 +143,12 @@ def check(case):
                 arr = out[o["t"] % 4]
                 if isinstance(arr, np.ndarray) and arr.flags.writeable:
                     arr[...] = o["value"]
-                    scribbled_vac.add(0 if k in (0, 1) else 1)
+                    scribbled_vac.add(0 if k in (0, 1) else k - 1)
                     trace.append("scribble(%d,%d)" % (k, o["t"] % 4))
         elif o["op"] == "reuse":
             # the caller overwrites, in place, the input arrays it passed to the last evaluation with another input of the pool
             if held is not None and held[0] == N:
-                k2 = o["k"] % 3
+                k2 = o["k"] % len(tags)
                 new = calc.preene2betafree(case["kT"], **calc.tags2preene(tags[k2]))
                 for a, b in zip(held[1], new):
                     if isinstance(a, np.ndarray) and a.shape == np.shape(b) and a.flags.writeable:
@@ -157,6 +173,11 @@ def check(case):
             pending["reload"] = True
             trace.append("reload")
     nt = flags["eval_after_scribble_same_vacancy"] or flags["eval_after_regen"] or flags["eval_after_reload"]
+    tr = " ".join(trace)
+    if len(sl) > 1 and ("eval2 eval3" in tr or "eval3 eval2" in tr):
+        flags["finite_difference_pair_vacancy_energy"] = True
+    if "eval2 eval4" in tr or "eval4 eval2" in tr:
+        flags["finite_difference_pair_omega0"] = True
     classes = cs.describe(crys) + vs.describe(small) + [k for k, v in flags.items() if v]
     return {"nontrivial": bool(nt), "classes": classes,
             "sample": {"crystal": setup["recipe"]["name"], "basis": setup["recipe"]["basis"], "history": trace, "n_tags": len(tags[0])}}
